@@ -434,6 +434,55 @@ Section Tickets.
       let c2 := if c_sidlen c1 >? 0 then c_set_sid c1 (zeros IDLEN) 0 else c1 in
       (rc, c_set_ticket c2 (match s_keys st with [] => k_SESS_TICKET_STATE_INIT | _ => k_SESS_TICKET_STATE_RECVD_EXT end)
                         (c_tms c2) (c_reqems c2)).
+
+  (* ---- getTicketKeys with the application's ticket callback (matrixSslSetSessionTicketCallback; matrixssl.c
+     1791-1865).  The callback gets the key name and whether the key was found in the local list; it returns
+     < 0 (CbReject), >= 0 (CbAccept), or loads a key with matrixSslLoadSessionTicketKeys and returns >= 0 (CbLoad).
+     A ticket is honoured only if the callback, when one is registered, did not reject it; when the key was not in
+     the list the callback must have appended one of that name (the LAST key of the list is checked). *)
+  Inductive cb_verdict := CbAccept | CbReject | CbLoad (name sym : list N) (symlen : Z) (hash : list N) (hashlen : Z).
+  Definition cbfun := list N -> bool -> cb_verdict.
+
+  Definition last_key (l : list tkey) : option tkey := match rev l with [] => None | k :: _ => Some k end.
+
+  Definition get_ticket_keys (cb : option cbfun) (name : list N) (st : state) : option tkey * state :=
+    match cb with
+    | None => (find_key name (s_keys st), st)
+    | Some f =>
+      let found := find_key name (s_keys st) in
+      let v := f name (match found with Some _ => true | None => false end) in
+      match v with
+      | CbReject => (None, st)
+      | _ =>
+        let st1 := match v with CbLoad n s sl h hl => snd (key_add n s sl h hl st) | _ => st end in
+        match found with
+        | Some k => (Some k, st1)                      (* cached key, callback agreed *)
+        | None => match last_key (s_keys st1) with     (* "it's been found and added at end of list. confirm this" *)
+                  | Some k => if beq (k_name k) name then (Some k, st1) else (None, st1)
+                  | None => (None, st1)
+                  end
+        end
+      end
+    end.
+
+  (* matrixUnlockSessionTicket with an optional callback: the rest of the function works on the key chosen above *)
+  Definition ticket_unlock_cb (cb : option cbfun) (c : conn) (tk : list N) (st : state) : Z * conn * state :=
+    if negb (Z.of_nat (length tk) =? TICKETLEN) then (k_PS_FAILURE, c, st)
+    else match get_ticket_keys cb (firstn 16 tk) st with
+    | (None, st1) => (k_PS_FAILURE, c, st1)
+    | (Some k, st1) => let '(rc, c1) := ticket_unlock c tk (set_keys st1 [k]) in (rc, c1, st1)
+    end.
+
+  Definition ticket_ext_cb (cb : option cbfun) (c : conn) (tk : list N) (st : state) : Z * conn * state :=
+    let c0 := if c_tstate c <? 0 then c_set_ticket c 0 (zeros MSLEN) (c_reqems c) else c in
+    let '(rc, c1, st1) := ticket_unlock_cb cb c0 tk st in
+    if rc =? k_PS_SUCCESS then
+      (rc, c_set_secret (c_set_flags (c_set_ticket c1 k_SESS_TICKET_STATE_USING_TICKET (c_tms c1) (c_reqems c1)) (c_closed c1) (c_error c1) true)
+                        (c_tms c1) (c_cipher c1), st1)
+    else
+      let c2 := if c_sidlen c1 >? 0 then c_set_sid c1 (zeros IDLEN) 0 else c1 in
+      (rc, c_set_ticket c2 (match s_keys st1 with [] => k_SESS_TICKET_STATE_INIT | _ => k_SESS_TICKET_STATE_RECVD_EXT end)
+                        (c_tms c2) (c_reqems c2), st1).
 End Tickets.
 
 (* ------------------------------------------------------------------ TLS 1.3 tickets: the sealed session parameters
